@@ -25,7 +25,8 @@ def _cfg_text(base_cfg: str, layer: str, skip: list) -> str:
 
 def _run(module: str, base_cfg: str, traces: list, layer: str, skip: list, timeout: int):
     """Returns {index in traces: (reached, expected)}, {index: invariant name}."""
-    name = f"_gen_{layer}_{'_'.join(skip) or 'none'}.cfg"
+    import hashlib
+    name = f"_gen_{layer}_{hashlib.sha1('_'.join(skip).encode()).hexdigest()[:10] if skip else 'none'}.cfg"
     idx = list(range(len(traces)))
     inv_viol: dict = {}
     out: dict = {}
@@ -114,6 +115,12 @@ def check(report, module: str, base_cfg: str, traces: list, p_guards: list, *, p
             todo = [k for k in todo if named[k] is None]
         # several clauses failing at the same event: isolate (only guard g enabled) and name every failing one
         todo = [k for k in named if named[k] is None]
+        if todo:        # rejected even with every guard switched off: the event sequence itself does not fit the machine
+            r, _inv = _run(module, base_cfg, [subsub[k] for k in todo], "P", list(p_guards), timeout)
+            for pos, k in enumerate(list(todo)):
+                if pos in r and r[pos][0] < r[pos][1]:
+                    named[k] = "structure of the event sequence (no action of the specification matches the next event)"
+            todo = [k for k in todo if named[k] is None]
         if todo:
             failing = {k: [] for k in todo}
             for g in p_guards:
